@@ -23,6 +23,9 @@
 -/
 import AgpTpf.Proofs.ImpRemap
 import AgpTpf.Properties.C01
+import AgpTpf.Properties.C02NoError
+-- the `example`s compare nested tuples by `decide +kernel`: the default size limit of instance search is too small for their `DecidableEq`
+set_option synthInstance.maxSize 100000
 namespace AgpTpf.C01
 open AgpTpf
 open AgpTpf.C09 (absNamer WfNamer)
@@ -153,14 +156,14 @@ example : absNamer { autosome_prefix := rmPrefix } = ({ autosomePrefix := rmPref
 /-- the source on the example, from the empty state: three results, the contig `a` held by two of them (the same object in both
     dictionaries); and the model, evaluated independently -/
 example : Gen.Imp.BuildAssembly_find_assembly_overlaps [] [] { autosome_prefix := rmPrefix } [] [] rmPtx 3 (inputOverlaps rmInput)
-    = .ok (rmStore1, rmHeap, rmNamer2, rmFound, rmMulti) := by rfl
+    = .ok (rmStore1, rmHeap, rmNamer2, rmFound, rmMulti) := by decide +kernel
 example : (findAssemblyOverlaps rmInput rmPtx
       { namer := { autosomePrefix := rmPrefix }, nextOid := 4, joinGap := some rmG200, err := 3 }).map
         (fun b => (b.store, b.namer, b.found, b.multi))
-    = .ok (rmStore1, absNamer rmNamer2, absFound rmHeap rmFound, rmMulti.map (·.1)) := by rfl
+    = .ok (rmStore1, absNamer rmNamer2, absFound rmHeap rmFound, rmMulti.map (·.1)) := by decide +kernel
 /-- an unknown scaffold name in the Pretext map: ValueError on both sides -/
 example : Gen.Imp.BuildAssembly_find_assembly_overlaps [] [] { autosome_prefix := rmPrefix } [] []
-      [{ name := "Scaffold_1".toList, rows := [.frag { rmP1 with name := ['s', '9'] }] }] 3 (inputOverlaps rmInput) = .error .value := by rfl
+      [{ name := "Scaffold_1".toList, rows := [.frag { rmP1 with name := ['s', '9'] }] }] 3 (inputOverlaps rmInput) = .error .value := by decide +kernel
 
 /-! ### 3. `cut_remaining_overhangs` -/
 
@@ -199,8 +202,8 @@ def remapStart (input : List Scaffold) (prefix_ : Str) (joinGap : Option Gap) (e
 
 /-- the duplicate-name check `remapToInput` performs first (in the source: `IndexedAssembly.add_scaffold`, `index_input_is_source`) -/
 def inputNamesDistinct (input : List Scaffold) : Prop :=
-  ∃ seen, input.foldlM (fun (seen : List Str) s => if seen.contains s.name then throw Err.value else pure (seen ++ [s.name])) []
-    = .ok seen
+  ∃ seen : List Str, input.foldlM (fun (seen : List Str) (s : Scaffold) =>
+      if seen.contains s.name then (throw Err.value : R (List Str)) else pure (seen ++ [s.name])) [] = .ok seen
 
 /-- … when it fails, `remapToInput` raises ValueError (and the source never gets an `IndexedAssembly` to call phase 1 with) -/
 theorem remap_to_input_duplicate_name (input ptx : List Scaffold) (prefix_ : Str) (joinGap : Option Gap) (err : Int)
@@ -230,6 +233,19 @@ def RemapFuel (input ptx : List Scaffold) (prefix_ : Str) (joinGap : Option Gap)
     fuel = totalRows b₁.store + 2 ∨
     (totalRows b₁.store + 2 ≤ fuel ∧ discardOverhanging (totalRows b₁.store + 2) b₁ ≠ .error .other)
 
+/-- for a well-formed input the model's loop does not run out of fuel (`C02.discard_overhanging_never_raises`), so EVERY fuel from
+    the model's upwards will do -/
+theorem remap_fuel_of_wf (input ptx : List Scaffold) (prefix_ : Str) (joinGap : Option Gap) (err : Int) (fuel : Nat)
+    (hwf : WFInput input)
+    (hge : ∀ b₁, findAssemblyOverlaps input ptx (remapStart input prefix_ joinGap err) = .ok b₁ → totalRows b₁.store + 2 ≤ fuel) :
+    RemapFuel input ptx prefix_ joinGap err fuel := by
+  intro b₁ h
+  refine .inr ⟨hge b₁ h, ?_⟩
+  obtain ⟨hm, -⟩ := reg_after_find input ptx _ b₁ ⟨rfl, rfl, rfl⟩ h
+  obtain ⟨b', hb'⟩ := C02.discard_overhanging_never_raises hwf (totalRows b₁.store + 2) b₁ hm (by omega)
+  rw [hb']
+  intro hc; cases hc
+
 /-- THE CAPSTONE.  For every input (with distinct scaffold names), Pretext assembly, prefix, default gap `g` and error length, and the
     model's fuel (or more, `RemapFuel`): started from the state of `BuildAssembly.__init__` — the namer of `ScaffoldNamer.__init__`,
     empty store / arena / dictionaries, the object-id counter where `remapToInput` puts it, no cuts —, the source's
@@ -253,8 +269,8 @@ theorem remap_to_input_refines (input ptx : List Scaffold) (prefix_ : Str) (g : 
               cuts := b.cuts, nextOid := b.nextOid, joinGap := some g, err := err } := by
   obtain ⟨seen, hseen⟩ := hdup
   have h := ImpRemap.phase1_tie input ptx (remapStart input prefix_ (some g) err) g rfl (inputOverlaps input) (fun _ => rfl)
-    { autosome_prefix := prefix_ } [] [] [] ⟨by unfold WfNamer; decide, coherent_empty, rfl⟩ fuel hfuel
-  rw [ImpRemap.remapToInput_eq]
+    { autosome_prefix := prefix_ } [] [] [] ⟨⟨Int.le_refl 0, Int.le_refl 0⟩, coherent_empty, rfl⟩ fuel hfuel
+  rw [ImpRemap.remapToInput_eq, show ImpRemap.initBuild input prefix_ (some g) err = remapStart input prefix_ (some g) err from rfl]
   have hseen' : ImpRemap.dupCheck input = .ok seen := hseen
   rw [hseen']
   simp only [ImpRemap.ok_bind]
@@ -306,7 +322,7 @@ example : Gen.Imp.BuildAssembly_remap_to_input_assembly 5 [] (remapStart rmInput
       { autosome_prefix := rmPrefix } [] [] 0 rmPtx rmInput 3 rmG200 (inputOverlaps rmInput)
     = .ok (rmStore2, 6,
         [({ name := ['s', '1'], rows := [.frag rmB], rank := 3 }, some (.frag rmA, [.gap rmG10]))], [0],
-        rmHeap, { rmNamer2 with current_scaffold_name := some ['b'], current_rank := some 3 }, rmFound, [], 1) := by rfl
+        rmHeap, { rmNamer2 with current_scaffold_name := some ['b'], current_rank := some 3 }, rmFound, [], 1) := by decide +kernel
 /-- … and the model on the same input, evaluated independently: the `Build` that result stands for -/
 example : remapToInput rmInput rmPtx rmPrefix (some rmG200) 3
     = .ok { namer := absNamer { rmNamer2 with current_scaffold_name := some ['b'], current_rank := some 3 }, store := rmStore2,
@@ -317,7 +333,7 @@ example : remapToInput rmInput rmPtx rmPrefix (some rmG200) 3
         (fun b => (b.namer, b.store, b.found, b.multi, b.extra, b.cuts, b.nextOid, b.joinGap, b.err))
       = .ok (absNamer { rmNamer2 with current_scaffold_name := some ['b'], current_rank := some 3 }, rmStore2,
              absFound rmHeap rmFound, [], [({ name := ['s', '1'], rows := [.frag rmB], rank := 3 }, some (rmA, [rmG10]))],
-             1, 6, some rmG200, 3) := by rfl
+             1, 6, some rmG200, 3) := by decide +kernel
   cases hr : remapToInput rmInput rmPtx rmPrefix (some rmG200) 3 with
   | error e => rw [hr] at h; cases h
   | ok b =>
@@ -331,9 +347,9 @@ example : remapToInput rmInput rmPtx rmPrefix (some rmG200) 3
 /-- a Pretext fragment on a scaffold the input does not have: ValueError on both sides -/
 example : Gen.Imp.BuildAssembly_remap_to_input_assembly 5 [] 4 [] { autosome_prefix := rmPrefix } [] [] 0
       [{ name := "Scaffold_1".toList, rows := [.frag { rmP1 with name := ['s', '9'] }] }] rmInput 3 rmG200 (inputOverlaps rmInput)
-    = .error .value := by rfl
+    = .error .value := by decide +kernel
 example : (remapToInput rmInput [{ name := "Scaffold_1".toList, rows := [.frag { rmP1 with name := ['s', '9'] }] }] rmPrefix
-      (some rmG200) 3).map (fun b => b.cuts) = .error .value := by rfl
+      (some rmG200) 3).map (fun b => b.cuts) = .error .value := by decide +kernel
 
 /-! ### the point of it all: `remap_partitions` for the state the SOURCE's phase 1 produces -/
 
